@@ -67,9 +67,9 @@ def _frag(draw, tier, idx):
 
 @st.composite
 def _case(draw, tier):
-    n = draw(st.integers(1, 8))
+    n = draw(st.sampled_from([1, 2, 3, 4, 5, 6, 8]))
     frags = [draw(_frag(tier, i)) for i in range(n)]
-    ntests = draw(st.integers(1, 3))
+    ntests = draw(st.sampled_from([1, 2, 3]))
     assign = [draw(st.integers(0, ntests - 1)) for _ in frags]
     return {"frags": frags, "assign": assign, "F": draw(flag_sets())}
 
